@@ -187,10 +187,55 @@ pub fn judge_purl(ops: &[COp], spelling: &str) -> Option<Fail> {
     let cs = real_of(ops);
     let b = GenericPurlBuilder::new("t".to_string(), "n");
     match guard_res("try_with_typed_qualifier", || b.try_with_typed_qualifier(Some(cs))).map(obs::build) {
-        Out::Ok(Out::Ok(p)) => check("built", &p),
-        Out::Ok(o) => Some(Fail::tagged("purl-build-failed", o.kind(), format!("building with the checksum after {ops:?}: {}", o.kind()))),
-        o => Some(Fail::tagged("purl-build-failed", o.kind(), format!("try_with_typed_qualifier after {ops:?}: {}", o.kind()))),
+        Out::Ok(Out::Ok(p)) => {
+            if let Some(f) = check("built", &p) {
+                return Some(f);
+            }
+        },
+        Out::Ok(o) => return Some(Fail::tagged("purl-build-failed", o.kind(), format!("building with the checksum after {ops:?}: {}", o.kind()))),
+        o => return Some(Fail::tagged("purl-build-failed", o.kind(), format!("try_with_typed_qualifier after {ops:?}: {}", o.kind()))),
     }
+    if want_opt.is_none() {
+        return None;
+    }
+    // the typed value replaces whatever checksum the PURL carried before: a text set by
+    // name, and the checksum of a parsed PURL taken apart again
+    let b = GenericPurlBuilder::new("t".to_string(), "n");
+    let over = guard_res("with_qualifier, then try_with_typed_qualifier", || b.with_qualifier("checksum", "zz:00").map(|b| b.try_with_typed_qualifier(Some(real_of(ops)))));
+    match over {
+        Out::Ok(Ok(b)) => match obs::build(b) {
+            Out::Ok(p) => {
+                if let Some(f) = check("typed value set over a checksum text", &p) {
+                    return Some(f);
+                }
+            },
+            o => return Some(Fail::tagged("purl-build-failed", o.kind(), format!("typed checksum set over a checksum text, after {ops:?}: {}", o.kind()))),
+        },
+        o => return Some(Fail::tagged("purl-build-failed", o.kind(), format!("typed checksum set over a checksum text, after {ops:?}: {}", o.kind()))),
+    }
+    if let Out::Ok(p) = obs::parse::<String>("pkg:t/n?checksum=ZZ:00,a:11") {
+        let b = p.into_builder();
+        match guard_res("into_builder, then try_with_typed_qualifier", || b.try_with_typed_qualifier(Some(real_of(ops)))).map(obs::build) {
+            Out::Ok(Out::Ok(p)) => {
+                if let Some(f) = check("typed value set over a parsed checksum", &p) {
+                    return Some(f);
+                }
+                // and taken out again
+                let b = match p.into_builder().try_with_typed_qualifier(None::<Checksum>) {
+                    Ok(b) => b,
+                    Err(e) => return Some(Fail::new("purl-typed-removal", format!("try_with_typed_qualifier(None::<Checksum>) = Err({e:?})"))),
+                };
+                match obs::build(b) {
+                    Out::Ok(p) if p.qualifiers().get("checksum").is_none() => {},
+                    Out::Ok(p) => return Some(Fail::new("purl-typed-removal", format!("try_with_typed_qualifier(None::<Checksum>) left checksum {:?}", p.qualifiers().get("checksum")))),
+                    o => return Some(Fail::tagged("purl-build-failed", o.kind(), format!("after removing the typed checksum: {}", o.kind()))),
+                }
+            },
+            Out::Ok(o) => return Some(Fail::tagged("purl-build-failed", o.kind(), format!("typed checksum set over a parsed checksum, after {ops:?}: {}", o.kind()))),
+            o => return Some(Fail::tagged("purl-build-failed", o.kind(), format!("typed checksum set over a parsed checksum, after {ops:?}: {}", o.kind()))),
+        }
+    }
+    None
 }
 
 // --- generation ------------------------------------------------------------------------------
